@@ -317,8 +317,12 @@ def load_outcome(cfgname, src):
     import jinja2
     env = get_env(cfgname)
     nlines = 1 + src.count("\n") + src.count("\r")       # generous upper bound on line count
+    # "never hangs": 5 s of CPU time of this process (robust against machine load: a hang burns CPU),
+    # with a generous wall-clock backstop
+    signal.signal(signal.SIGVTALRM, _alarm)
     signal.signal(signal.SIGALRM, _alarm)
-    signal.setitimer(signal.ITIMER_REAL, 5.0)
+    signal.setitimer(signal.ITIMER_VIRTUAL, 5.0)
+    signal.setitimer(signal.ITIMER_REAL, 120.0)
     try:
         try:
             env.from_string(src)
@@ -328,12 +332,13 @@ def load_outcome(cfgname, src):
                 return f"TemplateSyntaxError with lineno {e.lineno!r} outside the source (1..{nlines})"
             return None
         except _Timeout:
-            return "loading did not finish within 5 s"
+            return "loading did not finish within 5 s of CPU time"
         except RecursionError:
             return "RecursionError"
         except BaseException as e:  # noqa
             return f"{type(e).__name__}: {str(e)[:100]}"
     finally:
+        signal.setitimer(signal.ITIMER_VIRTUAL, 0)
         signal.setitimer(signal.ITIMER_REAL, 0)
 
 
